@@ -190,25 +190,8 @@ Definition model_skip (h : hstate) (k : qkind) : bool := match k with QGetE => h
 
 (* ---------- the crash clause of C04 on the real keys, for graphs beyond the three-id universe of the histories ----------
    Every by-source and by-destination entry names an edge record that exists, and every edge record has both entries
-   (keys of kvgraph/keys.go, parsed at their separator bytes and rebuilt with the constructors of Model/Keys.v). *)
-Fixpoint split0_aux (cur k : bytes) : list bytes :=
-  match k with
-  | [] => [rev cur]
-  | b :: r => if N.eqb b 0 then rev cur :: split0_aux [] r else split0_aux (b :: cur) r
-  end.
-Definition split0 (k : bytes) : list bytes := split0_aux [] k.
-Definition has_key (ks : list bytes) (k : bytes) : bool := existsb (beqb k) ks.
-Definition key_consistent (ks : list bytes) (k : bytes) : bool :=
-  match split0 k with
-  | [t; g; a; b; c; l; _] =>
-      if beqb t tag_e then has_key ks (src_key g b c a l) && has_key ks (dst_key g b c a l)      (* e|g|id|src|dst|label *)
-      else if beqb t tag_s then has_key ks (edge_key g c a b l)                                  (* s|g|src|dst|id|label *)
-      else if beqb t tag_d then has_key ks (edge_key g c b a l)                                  (* d|g|dst|src|id|label *)
-      else true
-  | _ => true
-  end.
-Definition keys_consistent (ks : list bytes) : bool := forallb (key_consistent ks) ks.
-
+   (keys of kvgraph/keys.go, parsed at their separator bytes and rebuilt with the constructors of Model/Keys.v:
+   keys_consistent there; what the check means for NUL-free components is C04_key_check_edge / _entry). *)
 Example keys_consistent_sane :
   let g := [103; 49]%N in let e := [101; 49]%N in let a := [97]%N in let b := [98]%N in let l := [76]%N in
   keys_consistent [vertex_key g a; edge_key g e a b l; src_key g a b e l; dst_key g a b e l] = true /\
